@@ -20,6 +20,7 @@ import glob
 import json
 import os
 import re
+from concurrent.futures import ThreadPoolExecutor
 
 from vlib.core import C, Raw, coq
 from checks import datalog_common as dc
@@ -587,7 +588,7 @@ def witness_f2b():
     for i in range(11):
         cl.append(agg(1, [V(1), V(3)], [["atom", dc.atom(E, V(1), V(2))], ["cmp", "gt", V(2), N(i)]], [1], [["reduce", 3, "count", []]]))
     init = [dc.fact(E, dc.num(1), dc.num(20)), dc.fact(E, dc.num(1), dc.num(30)), dc.fact(E, dc.num(2), dc.num(5)),
-            dc.fact(B, dc.num(1))]
+            dc.fact(B, dc.num(2))]
     return {"clauses": cl, "layers": [[1], [11]], "init": init, "pre": [], "features": ["witness-F2b"]}
 
 
@@ -668,17 +669,10 @@ def build_replay(ck, prog, gc, g, v, origin):
     return rep
 
 
-def probe(ck, prog, what, known_id):
-    """Replays the witness of a known finding; KNOWN-FINDING line if it still fails."""
-    gc = go_case(prog, ["simple", "multi"], [True])
-    out = ck.run_go("c02", [gc])[0]
-    if "out" not in out or out["out"]["stage"] != "ok":
-        ck.violation({"property": "C02", "kind": "probe %s not evaluated" % known_id, "program": prog, "impl": out})
-        return None
-    vs = [ck.run_coq("C02", "judge", [cq_case(prog, g)], tag="probe")[0] for g in out["out"]["groups"]]
-    if any(v == 2 for v in vs):
-        ck.known("%s %s" % (known_id, what))
-    return vs
+PROBES = [("F2b", witness_f2b, "internal predicate names `<head><n>__tmp` collide (p11+1 = p1+11 = p111__tmp): "
+           "the 11th aggregating rule of p1 and the rule of p11 share one internal relation"),
+          ("N41", witness_n41, "facts produced by a do-transform are not seen by the other rules of the same "
+           "stratum (h(S,K) :- h(K,S) never fires on the aggregate)")]
 
 
 def run(ck):
@@ -712,7 +706,11 @@ def run(ck):
         else:
             stores, det = ALL_STORES, [False, True]
         go_cases.append(go_case(p, stores, det, shuffle_rng=rng if origin[i] == "random" and rng.random() < 0.5 else None))
-    outs = ck.run_go("c02", go_cases, timeout=3000)
+    probe_progs = [(pid_, mk(), what) for pid_, mk, what in PROBES]
+    probe_cases = [go_case(p, ["simple", "multi"], [True]) for _, p, _ in probe_progs]
+    outs = ck.run_go("c02", go_cases + probe_cases, timeout=3000)
+    probe_outs = outs[len(go_cases):]
+    outs = outs[:len(go_cases)]
     ck.log("go side done: %d programs" % len(progs))
 
     terms, where, rejected, stage_counts = [], [], [], {}
@@ -737,7 +735,40 @@ def run(ck):
                     ck.violation({"property": "C02", "kind": "Go produced a value outside the modelled fragment: %s" % e,
                                   "program": progs[i], "src": go_cases[i]["src"], "go": g},
                                  "no-failing-input-found")
-    verdicts = ck.run_coq("C02", "judge", terms, shard=max(8, len(terms) // 16 + 1))
+    # probes of the known findings ride in the same batch
+    probe_where = []
+    for (kid, pp, what), o in zip(probe_progs, probe_outs):
+        if "out" not in o or o["out"]["stage"] != "ok":
+            ck.violation({"property": "C02", "kind": "probe %s not evaluated" % kid, "program": pp, "impl": o},
+                         "no-failing-input-found")
+            continue
+        for g in o["out"]["groups"]:
+            probe_where.append((kid, what, cq_case(pp, g)))
+    # rewrite.Rewrite vs the model's rewrite (names, arities, split decisions)
+    rw_progs = [p for p, o in zip(progs, origin) if o != "exhaustive"][: ck.n(60, 600)]
+    rw_progs += [witness_f2b()]
+    rw_cases = [rewrite_case(p) for p in rw_progs]
+    rw_outs = ck.run_go("c02rw", [c for c, _ in rw_cases])
+    rw_terms, rw_where = [], []
+    for (c, rules), o in zip(rw_cases, rw_outs):
+        if "out" not in o or o["out"]["stage"] != "ok":
+            ck.violation({"property": "C02", "kind": "rewrite runner failed", "src": c["src"], "impl": o},
+                         "no-failing-input-found")
+            continue
+        rw_terms.append(coq(([cq_rule(r) for r in rules], rewrite_tokens(o["out"]))))
+        rw_where.append((c, o))
+    all_terms = terms + [t for _, _, t in probe_where]
+    with ThreadPoolExecutor(max_workers=2) as ex:
+        fut_rw = ex.submit(ck.run_coq, "C02", "judge_rewrite", rw_terms, max(8, len(rw_terms) // 4 + 1), "rw")
+        all_verdicts = ck.run_coq("C02", "judge", all_terms, shard=max(8, len(all_terms) // 14 + 1))
+        rw_verdicts = fut_rw.result()
+    verdicts = all_verdicts[:len(terms)]
+    probes = {}
+    for (kid, what, _), v in zip(probe_where, all_verdicts[len(terms):]):
+        probes.setdefault(kid, []).append(v)
+    for kid, _, what in PROBES:
+        if any(v == 2 for v in probes.get(kid, [])):
+            ck.known("%s %s" % (kid, what))
     ck.log("model side done: %d comparisons" % len(terms))
     vc = {}
     f8_skipped = 0
@@ -764,20 +795,6 @@ def run(ck):
             rep["no_longer_checks"] = "correspondence Run.C02.judge: " + VERDICT.get(v, str(v))
             ck.violation(rep, "no-failing-input-found")
 
-    # ---- rewrite.Rewrite vs the model's rewrite (names, arities, split decisions)
-    rw_progs = [p for p, o in zip(progs, origin) if o != "exhaustive"][: ck.n(120, 600)]
-    rw_progs += [witness_f2b()]
-    rw_cases = [rewrite_case(p) for p in rw_progs]
-    rw_outs = ck.run_go("c02rw", [c for c, _ in rw_cases])
-    rw_terms, rw_where = [], []
-    for (c, rules), o in zip(rw_cases, rw_outs):
-        if "out" not in o or o["out"]["stage"] != "ok":
-            ck.violation({"property": "C02", "kind": "rewrite runner failed", "src": c["src"], "impl": o},
-                         "no-failing-input-found")
-            continue
-        rw_terms.append(coq(([cq_rule(r) for r in rules], rewrite_tokens(o["out"]))))
-        rw_where.append((c, o))
-    rw_verdicts = ck.run_coq("C02", "judge_rewrite", rw_terms, shard=max(8, len(rw_terms) // 8 + 1), tag="rw")
     rw_bad = 0
     for (c, o), v in zip(rw_where, rw_verdicts):
         if v != 0:
@@ -786,13 +803,6 @@ def run(ck):
                 ck.violation({"property": "C02", "kind": "rewrite.Rewrite and the model's rewrite disagree (names / arities / split)",
                               "no_longer_checks": "correspondence Run.C02.judge_rewrite", "src": c["src"], "go": o["out"]},
                              "no-failing-input-found")
-
-    # ---- probes of the known findings
-    probes = {}
-    probes["F2b"] = probe(ck, witness_f2b(), "internal predicate names `<head><n>__tmp` collide (p11+1 = p1+11 = p111__tmp): "
-                          "the 11th aggregating rule of p1 and the rule of p11 share one internal relation", "F2b")
-    probes["N41"] = probe(ck, witness_n41(), "facts produced by a do-transform are not seen by the other rules of the same "
-                          "stratum (h(S,K) :- h(K,S) never fires on the aggregate)", "N41")
 
     rej_random = [r for r in rejected if origin[r[0]] != "exhaustive"]
     feats = {}
